@@ -260,6 +260,9 @@ func runDiff(r *harness.Run, c diffCase) error {
 	if err != nil {
 		return fmt.Errorf("Build B: %v", err)
 	}
+	if a.Depth() != c.A.Depth || b.Depth() != c.B.Depth {
+		return fmt.Errorf("built events report depth %d / %d, their proto-events say %d / %d", a.Depth(), b.Depth(), c.A.Depth, c.B.Depth)
+	}
 	// the same two events built through ONE reused builder must be the same two events
 	sa, err := take(a)
 	if err != nil {
@@ -318,7 +321,7 @@ func runDiff(r *harness.Run, c diffCase) error {
 func main() { harness.Main("C03", "model_checking", run) }
 
 func run(r *harness.Run) {
-	r.Rule("proto-event alphabet (9 type/state-key shapes x 1-3 contents x prev/auth lists of 0-2 IDs x depth {0,1,2^53-1} x unsigned {absent,present} x 2 signers) x all 16 room versions, built with the real EventBuilder; explicit-state search over edit sequences (SetUnsigned, SetUnsignedField, Sign by another server, Redact, re-parse untrusted/trusted/headered, repeated accessors) up to depth D (3 quick, 4 thorough; 1 / 2 on the non-base list / depth / signer settings) with accessor-by-accessor comparison after every transition; hashed event IDs compared with refevent (own redaction + canonical form + sha256 + alphabet); all pairs of proto-events differing in exactly one field must differ in ID (unsigned-only differences must not). Non-trivial = distinct (version, event, op sequence).")
+	r.Rule("proto-event alphabet (9 type/state-key shapes x 1-3 contents x prev/auth lists of 0-2 IDs x depth {0,1,2^53-1} x unsigned {absent,present} x 2 signers) x all 16 room versions, built with the real EventBuilder; explicit-state search over edit sequences (SetUnsigned, SetUnsignedField, Sign by another server, Redact, re-parse untrusted/trusted/headered, repeated accessors) up to depth D (3 quick, 4 thorough; 1 / 2 on the non-base list / depth / signer settings) with accessor-by-accessor comparison after every transition; hashed event IDs compared with refevent (own redaction + canonical form + sha256 + alphabet); all pairs of proto-events differing in exactly one field (incl. neighbouring depths around 2^53 and 2^63 where the version allows them) must differ in ID and report their own depth (unsigned-only differences must not). Non-trivial = distinct (version, event, op sequence).")
 	r.Assume("sha256/ed25519 trusted")
 	r.OnReplay("seq", func(raw json.RawMessage) error {
 		var c seqCase
@@ -416,6 +419,18 @@ func run(r *harness.Run) {
 				q.Content = strings.Replace(q.Content, "{", `{"zz_extra":1`+map[bool]string{true: "", false: ","}[q.Content == "{}"], 1)
 			})
 			mk("depth", func(q *evalpha.Proto) { q.Depth++ })
+			if !refversions.Get(v).EnforceCanonicalJSON {
+				// room versions without the integer-range rule carry any int64 depth: neighbours beyond 2^53 and at the top
+				for _, big := range []int64{1<<53 - 1, 1 << 53, 1<<53 + 1, 1<<63 - 2} {
+					pb := p
+					pb.Depth = big
+					q := pb
+					q.Prev = append([]string(nil), p.Prev...)
+					q.Auth = append([]string(nil), p.Auth...)
+					q.Depth = big + 1
+					diffs = append(diffs, diffCase{v, pb, q, "depth"})
+				}
+			}
 			mk("prev_events", func(q *evalpha.Proto) { q.Prev[0] = strings.Replace(q.Prev[0], "p", "z", 1) })
 			mk("auth_events", func(q *evalpha.Proto) { q.Auth[0] = strings.Replace(q.Auth[0], "p", "z", 1) })
 			mk("origin_server_ts", func(q *evalpha.Proto) { q.TS++ })
